@@ -198,7 +198,7 @@ class Batch:
             errbuf = []
             et = threading.Thread(target=lambda: errbuf.append(p.stderr.read()), daemon=True)
             et.start()
-            last_begin, done_flag, tail = None, False, []
+            last_begin, last_end, done_flag, tail = None, None, False, []
             last_io = [time.time()]
             hung = [False]
 
@@ -222,6 +222,7 @@ class Batch:
                     idx = int(sp[1])
                     r = json.loads(sp[2])
                     n_end += 1
+                    last_end = idx
                     with self.lock:
                         self.results[idx] = (r["hash"], r["ph"], r["nt"])
                         for c in r.get("cells", []):
@@ -252,6 +253,12 @@ class Batch:
             et.join(timeout=5)
             err = (errbuf[0] if errbuf else b"").decode("latin1")
             if done_flag and p.returncode == 0:
+                return
+            if done_flag and last_end is not None:
+                # every run completed but the process died while exiting (library destructor, sanitizer at-exit report):
+                # attribute it to the last run; a fresh-process execution of that run exits the same way
+                with self.lock:
+                    self.crashes.append((last_end, "\n".join(tail), err, "crash"))
                 return
             # the worker died (or was killed by the watchdog) inside run `last_begin`
             if last_begin is None:
